@@ -16,7 +16,7 @@
     plugs the C08 models in).  Not modelled: polymorphism and xsi:type (C16), Attributes.default,
     sub_name/sub_ns on members, AnyXml/AnyDict/AnyHtml/File/Enum members; the generators
     never produce them. *)
-From SpyneV Require Export C01.Univ.
+From SpyneV Require Export C01.Univ Gen.XmlWire.
 
 (** lxml trees as the harness prints them: namespace ("" = none), local name, attributes
     (ns, name, value), element.text, children; comments / PIs / entities = XOther.  Tails are
@@ -27,7 +27,9 @@ Inductive xnode :=
 
 Definition attr := (text * text * text)%type.
 
-Definition xsi_ns : text := [104; 116; 116; 112; 58; 47; 47; 119; 119; 119; 46; 119; 51; 46; 111; 114; 103; 47; 50; 48; 48; 49; 47; 88; 77; 76; 83; 99; 104; 101; 109; 97; 45; 105; 110; 115; 116; 97; 110; 99; 101].  (* http://www.w3.org/2001/XMLSchema-instance *)
+(** the tokens of the source that decide the codec are GENERATED from it (Gen/XmlWire.v, harness/translate/xmlwire.py):
+    xw_nil_literals, xw_write_each, xw_write_one, xw_read_multi, xw_freq_bad, xw_ns_xsi *)
+Definition xsi_ns : text := xw_ns_xsi.  (* spyne.const.xml.NS_XSI *)
 Definition t_nil : text := [110; 105; 108].  (* nil *)
 Definition t_true : text := [116; 114; 117; 101].  (* true *)
 Definition t_one : text := [49].  (* 1 *)
@@ -89,12 +91,15 @@ Fixpoint lookup_att (ns name : text) (atts : list attr) : option text :=
   | (a, n, v) :: r => if text_eqb a ns && text_eqb n name then Some v else lookup_att ns name r
   end.
 
-(** element.get(XSI('nil')) in ('true', '1') *)
+(** element.get(XSI('nil')) in <the generated tuple of literals> *)
 Definition is_nil (atts : list attr) : bool :=
   match lookup_att xsi_ns t_nil atts with
-  | Some v => text_eqb v t_true || text_eqb v t_one
+  | Some v => existsb (text_eqb v) xw_nil_literals
   | None => false
   end.
+
+(** Attributes.max_occurs as the number the source compares (decimal.Decimal('inf') for 'unbounded') *)
+Definition fmax (f : field) : ext := match f_max f with Some m => Fin m | None => PosInf end.
 
 (** lxml attribute key: Clark notation *)
 Definition clark (ns name : text) : text :=
@@ -151,21 +156,15 @@ Section Codec.
         | _ => Crash TypeError
         end
     | KElem =>
-        if is_multi f then                           (* mo > 1 *)
+        let isnone := match x with VNone => true | _ => false end in
+        if xw_write_each isnone (fmax f) then        (* if subvalue is not None and mo > 1: for sv in subvalue: to_parent(sv) *)
           match x with
-          | VNone => if 0 <? f_min f                 (* elif subvalue is not None or min_occurs > 0 *)
-                     then do e <- encf (f_ty f) dns (f_name f) VNone; Ok ([e], [], None)
-                     else Ok ([], [], None)
           | VList xs => do es <- mapM (encf (f_ty f) dns (f_name f)) xs; Ok (es, [], None)
           | _ => Crash TypeError                     (* iterating a non-sequence *)
           end
-        else
-          match x with
-          | VNone => if 0 <? f_min f
-                     then do e <- encf (f_ty f) dns (f_name f) VNone; Ok ([e], [], None)
-                     else Ok ([], [], None)
-          | _ => do e <- encf (f_ty f) dns (f_name f) x; Ok ([e], [], None)
-          end
+        else if xw_write_one isnone (f_min f) then   (* elif subvalue is not None or min_occurs > 0: to_parent(subvalue) *)
+          do e <- encf (f_ty f) dns (f_name f) x; Ok ([e], [], None)
+        else Ok ([], [], None)
     end.
 
   Definition or_text (a b : option text) : option text := match b with Some _ => b | None => a end.
@@ -271,7 +270,7 @@ Section Codec.
             match f_kind f with
             | KElem =>
                 do v <- decf f c;
-                if is_multi f then
+                if xw_read_multi (fmax f) then           (* if mo > 1: value.append(...) *)
                   do l <- as_list (getattr st name);
                   dec_kids decf fields r (setattr st name (VList (l ++ [v]))) freq'
                 else dec_kids decf fields r (setattr st name v) freq'
@@ -307,8 +306,7 @@ Section Codec.
 
   (** validator='soft': every member's count within [min_occurs, max_occurs] *)
   Definition freq_ok (fields : list field) (freq : list text) : bool :=
-    forallb (fun f => let n := count_text (f_name f) freq in
-                      (f_min f <=? n) && match f_max f with Some m => n <=? m | None => true end) fields.
+    forallb (fun f => negb (xw_freq_bad (count_text (f_name f) freq) (f_min f) (fmax f))) fields.
 
   (** XmlDocument.from_element; [nillable] is the Attributes.nillable of the member type *)
   Fixpoint dec (fuel : nat) (t : ty) (nillable : bool) (e : xnode) : out val :=
